@@ -1,5 +1,5 @@
 """C05 - header-only and raw-body operations agree with the full codec."""
-from wire_check import run_wire_property
+from wire_check import run_wire_property, stream_extra
 
 RULE = ("for every abstract frame of WireShapes.tla: DecodeRawFrame+ConvertFromRawFrame, DecodeHeader+DecodeBody, DecodeHeader+DecodeRawBody, "
         "DecodeHeader+DiscardBody (seekable and not), ConvertToRawFrame+EncodeRawFrame and EncodeHeader+EncodeBody are compared with the "
@@ -7,4 +7,4 @@ RULE = ("for every abstract frame of WireShapes.tla: DecodeRawFrame+ConvertFromR
 
 
 def run(tier):
-    return run_wire_property("C05", tier, RULE)
+    return run_wire_property("C05", tier, RULE + "; plus every complete behaviour of FrameStream.tla (sequences of up to 3 frames x write paths x read paths, and interleaved writes/reads) replayed on real byte streams from 6 kinds of source with 3 compression settings, checking the reader position against the frame boundary after every step", extra=stream_extra("C05"))
